@@ -215,11 +215,19 @@ HDay ==
    library then reports the adjacent solar day's event, which the property does not compare. *)
 NearMidnight(t) == t < 30 \/ t > DaySec - 30
 Crosses(t, d) == t + d < 30 \/ t + d > DaySec - 30
+\* an entry is not compared when the shift moves it across civil midnight (or it lies within 30 s of it),
+\* nor when it is defined by an interval from such an entry (Isha from Maghrib, Fajr / Imsaak from Shurooq)
+SeamSkipped(p, d) ==
+    \/ (Ev.a.t[p] >= 0 /\ (Crosses(Ev.a.t[p], d) \/ NearMidnight(Ev.a.t[p])))
+    \/ (Ev.b.t[p] >= 0 /\ NearMidnight(Ev.b.t[p]))
+Skipped(p, d) ==
+    \/ SeamSkipped(p, d)
+    \/ (p = Isha /\ Ev.p.ii # 0 /\ SeamSkipped(Maghrib, d))
+    \/ (p \in {Fajr, Imsaak} /\ Ev.p.fi # 0 /\ SeamSkipped(Shurooq, d))
 C20Within(tol) ==
     LET d == IF Ev.kind = "gmt" THEN Ev.d ELSE 0 IN
     \A p \in 1..7 :
-       \/ (Ev.a.t[p] >= 0 /\ (Crosses(Ev.a.t[p], d) \/ NearMidnight(Ev.a.t[p])))
-       \/ (Ev.b.t[p] >= 0 /\ NearMidnight(Ev.b.t[p]))
+       \/ Skipped(p, d)
        \/ /\ (Ev.a.t[p] >= 0) = (Ev.b.t[p] >= 0)
           /\ Ev.a.t[p] >= 0 => AbsI(CircDiff(Ev.b.t[p], Ev.a.t[p] + d)) <= tol
 C20Call == Is("c20") /\ C20Within(12) /\ Step
